@@ -11,6 +11,14 @@ from harness import ixdriver, ixcommon
 LEVEL = "model_checking"
 
 
+def _force_unlock(wr):
+    try:
+        if getattr(wr, "writelock", None) is not None:
+            wr.writelock.release()
+    except Exception:
+        pass
+
+
 def history(rng, wld, nsteps, keys):
     from whoosh import query, fields
     searchers = []
@@ -33,6 +41,14 @@ def history(rng, wld, nsteps, keys):
         elif sc < 0.25 and extra_fields > 0:
             wld.guarded(name, "remove_field", lambda: wr.remove_field("extra%d" % extra_fields))
             pending_fields = extra_fields - 1
+        elif sc < 0.31 and extra_fields > 0:
+            # the same name removed and added again (as another type) by one writer: no net change in names
+            wld.guarded(name, "remove_field", lambda: wr.remove_field("extra%d" % extra_fields))
+            wld.guarded(name, "add_field", lambda: wr.add_field("extra%d" % extra_fields, fields.ID(stored=True)))
+        elif sc < 0.37 and extra_fields < 2:
+            # a field added and removed again by one writer
+            wld.guarded(name, "add_field", lambda: wr.add_field("extra%d" % (extra_fields + 1), fields.KEYWORD(stored=True)))
+            wld.guarded(name, "remove_field", lambda: wr.remove_field("extra%d" % (extra_fields + 1)))
         for _ in range(rng.randrange(0, 5)):
             if not pool:
                 break
@@ -86,13 +102,21 @@ def history(rng, wld, nsteps, keys):
         wld.actor(name)
         end = rng.random()
         if end < 0.12:
-            wr.cancel()
+            # (an exception from cancel() is a violation, not a driver failure; the lock is released for the
+            # rest of the history either way)
+            ok, _ = wld.guarded(name, "cancel", wr.cancel)
+            if not ok:
+                _force_unlock(wr)
         elif end < 0.2:
-            try:
-                with wr:
-                    raise RuntimeError("boom")
-            except RuntimeError:
-                pass
+            def failing_block():
+                try:
+                    with wr:
+                        raise RuntimeError("boom")
+                except RuntimeError:
+                    pass
+            ok, _ = wld.guarded(name, "with-block", failing_block)
+            if not ok:
+                _force_unlock(wr)
         elif end < 0.45:
             wr.commit(merge=False)
             extra_fields = pending_fields
@@ -155,6 +179,35 @@ def prelude(wld, keys):
             s.close()
 
 
+def prelude_emptied(wld, keys):
+    """A directed opening: every document is deleted and the index optimized (which can leave a segment
+    without documents at the head of the segment list), then documents arrive in two unmerged commits; the
+    history that follows deletes and updates by key and by document number."""
+    def put(ks, **kw):
+        name, wr = wld.writer()
+        for k in ks:
+            wld.actor(name)
+            wld.log.emit("api", op="update", key=k, uid=0)
+            wr.update_document(key=k, body=u"xx %s" % k, n=1)
+        wld.actor(name)
+        wr.commit(**kw)
+    put(keys[:4])
+    name, wr = wld.writer()
+    for k in keys[:4]:
+        wld.actor(name)
+        ret = wr.delete_by_term("key", k)
+        wld.log.emit("api", op="deletemany", keys=[k], ret=int(ret))
+    wld.actor(name)
+    wr.commit(optimize=True)
+    put(keys[:3], merge=False)
+    put(keys[3:5], merge=False)
+    rname = wld.new_reader_name()
+    ok, s = wld.guarded(rname, "searcher", wld.reader_handle().searcher)
+    if ok:
+        wld.probe(rname, s)
+        s.close()
+
+
 def check(run):
     quick = run.tier == "quick"
     rng = random.Random(run.seed + 707)
@@ -174,6 +227,8 @@ def check(run):
         try:
             if i % 4 == 0:
                 prelude(w, ["k%d" % j for j in range(7)])
+            elif i % 4 == 2:
+                prelude_emptied(w, ["k%d" % j for j in range(7)])
             history(random.Random(seed), w, 8 if quick else 25, ["k%d" % j for j in range(7)])
             t = w.trace()
             run.count(len(t))
